@@ -972,3 +972,53 @@ Proof.
   lra.
 Qed.
 End PHChemical.
+
+(* ---------- vle_domain and the temperature clamp of BubblePoint.solve_Py ---------- *)
+
+Lemma lmaxq_ge : forall l a, In a l -> a <= lmaxq l.
+Proof.
+  induction l as [|x t IH]; intros a Ha; [destruct Ha|].
+  destruct t as [|y t'].
+  - destruct Ha as [<-|[]]. cbn. apply Qle_refl.
+  - change (lmaxq (x :: y :: t')) with (Qmax x (lmaxq (y :: t'))).
+    destruct Ha as [<-|Ha].
+    + apply Q.le_max_l.
+    + eapply Qle_trans; [apply IH; exact Ha|apply Q.le_max_r].
+Qed.
+Lemma lminq_le : forall l a, In a l -> lminq l <= a.
+Proof.
+  induction l as [|x t IH]; intros a Ha; [destruct Ha|].
+  destruct t as [|y t'].
+  - destruct Ha as [<-|[]]. cbn. apply Qle_refl.
+  - change (lminq (x :: y :: t')) with (Qmin x (lminq (y :: t'))).
+    destruct Ha as [<-|Ha].
+    + apply Q.le_min_l.
+    + eapply Qle_trans; [apply Q.le_min_r|apply IH; exact Ha].
+Qed.
+
+Lemma qltb_false_le : forall a b, a <= b -> qltb b a = false.
+Proof. intros a b H. unfold qltb. apply Bool.negb_false_iff. apply Qle_bool_iff. exact H. Qed.
+
+(* the domain reaches every chemical's own Psat range (cut at the global limits) *)
+Lemma domain_covers_lemma : forall tmins tmaxs a b,
+  In a tmins -> In b tmaxs ->
+  fst (vle_domain tmins tmaxs) <= Qmax a Tmin_limit + (1#100) /\
+  Qmin b Tmax_limit - (1#100) <= snd (vle_domain tmins tmaxs).
+Proof.
+  intros tmins tmaxs a b Ha Hb. unfold vle_domain. cbn [fst snd]. split.
+  - apply Qplus_le_l. apply Q.max_le_compat_r. apply lminq_le; exact Ha.
+  - unfold Qminus. apply Qplus_le_l. apply Q.min_le_compat_r. apply lmaxq_ge; exact Hb.
+Qed.
+
+Lemma bubble_T_not_clamped_lemma : forall tmins tmaxs a b T,
+  In a tmins -> In b tmaxs ->
+  Qmax a Tmin_limit + (1#100) <= T -> T <= Qmin b Tmax_limit - (1#100) ->
+  clampT (fst (vle_domain tmins tmaxs)) (snd (vle_domain tmins tmaxs)) T = T.
+Proof.
+  intros tmins tmaxs a b T Ha Hb H1 H2.
+  destruct (domain_covers_lemma tmins tmaxs a b Ha Hb) as [D1 D2].
+  unfold clampT.
+  rewrite (qltb_false_le T (snd (vle_domain tmins tmaxs))) by (eapply Qle_trans; [exact H2|exact D2]).
+  rewrite (qltb_false_le (fst (vle_domain tmins tmaxs)) T) by (eapply Qle_trans; [exact D1|exact H1]).
+  reflexivity.
+Qed.
